@@ -93,6 +93,8 @@ def grid_trees():
             "nested_both": ([["if", 0, [d], [D(dk)]]], [D(dk)]),
             "nested_one": ([["if", 0, [d], []]], [D(dk)]),
             "block_both": ([["block", [d]]], [["block", [["block", [D(dk)]]]]]),
+            "block_body": ([["block", [d]]], []),
+            "block_else": ([], [["block", [["block", [d]]]]]),
         }
         for pn, (body, orelse) in places.items():
             for use in ("before", "in_body", "in_else", "after", "none"):
@@ -235,7 +237,7 @@ def part_a(ck):
     cases = []
     for meta, mu, tree in grid_trees():
         cases.append((meta, mu, tree))
-    nrand = 600 if quick else 6000
+    nrand = 300 if quick else 6000
     for i in range(nrand):
         t = rand_tree(rng, depth=rng.choice([2, 3, 3]))
         if n_paths(t) > 400:
@@ -288,7 +290,7 @@ def part_a(ck):
     # ---- _check_temporaries
     scases = []
     pool = [t for _, _, t in grid_trees()[::7]]
-    for i in range(150 if quick else 1500):
+    for i in range(80 if quick else 1500):
         k = rng.randint(1, 3)
         sts = [rng.choice(pool) if rng.random() < 0.3 else rand_tree(rng, depth=2) for _ in range(k)]
         scases.append(sts)
@@ -301,6 +303,7 @@ def part_a(ck):
         sterms.append("([" + "; ".join(c_block(b) for b in s) + f"], {rb})")
     sbad = set(common.coq_bad_indices(ck, "a_states", PRE_A, "list block * bool", sterms,
                                       "fun c => Bool.eqb (check_states (fst c)) (snd c)"))
+    sgroups = {}
     for i, (s, r) in enumerate(zip(scases, sres)):
         ck.evaluations += 1
         spec_ok = True
@@ -316,12 +319,18 @@ def part_a(ck):
         ck.hist("a_states_real", r)
         ck.nontrivial(("s", repr(s)))
         if not ok:
-            if not spec_ok:
-                ck.violation({"part": "states", "defect": "temporary of another state accepted"},
-                             "_check_temporaries accepts a state that reads a temporary it never writes", {"states": s, "real": r})
-            else:
-                ck.violation({"part": "states", "correspondence": "check_states"},
-                             "real _check_temporaries differs from Temps.check_states", {"states": s, "real": r}, no_input=True)
+            kind = "spec" if not spec_ok else "model"
+            sgroups.setdefault(kind, []).append((len(repr(s)), i))
+    for kind, lst in sorted(sgroups.items()):
+        lst.sort()
+        i = lst[0][1]
+        rep = {"states": scases[i], "real": sres[i], "other_failing": len(lst) - 1}
+        if kind == "spec":
+            ck.violation({"part": "states", "defect": "temporary of another state accepted"},
+                         "_check_temporaries accepts a state that reads a temporary it never writes (smallest of %d)" % len(lst), rep)
+        else:
+            ck.violation({"part": "states", "correspondence": "check_states"},
+                         "real _check_temporaries differs from Temps.check_states (smallest of %d)" % len(lst), rep, no_input=True)
     ck.cov["a_states_cases"] = len(scases)
 
     # ---- cleanup
@@ -331,8 +340,10 @@ def part_a(ck):
               [D("expr"), D("expr", 2), U(2)],
               [D("var"), ["if", 0, [D("expr", 2)], [D("var", 3), U(3)]]],
               [["expr", False, [0], 1], ["expr", False, [1], 2], ["expr", False, [2], 3]]]
-    for i in range(300 if quick else 3000):
-        ccases.append(rand_tree(rng, depth=rng.choice([1, 2, 3]), casts=True))
+    for i in range(150 if quick else 3000):
+        t = rand_tree(rng, depth=rng.choice([1, 2, 3]), casts=True)
+        if n_paths(t) <= 400:
+            ccases.append(t)
     cres = common.run_worker("c08_worker.py", {"cases": [{"op": "cleanup", "tree": t} for t in ccases]})["results"]
     cterms = []
     for t, r in zip(ccases, cres):
@@ -343,17 +354,14 @@ def part_a(ck):
     cfun = "cleanup_fixed" if MODEL == "fixed" else "cleanup"
     cbad = set(common.coq_bad_indices(ck, "a_cleanup", PRE_A, "block * list acc", cterms,
                                       f"fun c => accs_eqb (temp_lin ({cfun} (fst c))) (snd c)"))
+    # spec on the real result: if the input has a write before every read on every path, then after the real
+    # cleanup every temporary that is still read is still written (cleanup removed no needed write)
+    cspec = set(common.coq_bad_indices(ck, "a_cleanup_spec", PRE_A, "block * list acc", cterms,
+                                       "fun c => negb (def_before_use_b [] (fst c)) || covered (snd c)"))
     cgroups = {}
     for i, (t, r) in enumerate(zip(ccases, cres)):
         ck.evaluations += 1
-        rd0, wr0 = set(), set()
-        collect_rw(t, rd0, wr0)
-        spec_ok = True
-        if not isinstance(r, str) and rd0 <= wr0:
-            # spec: cleanup removes no write that a remaining read needs
-            rd = {x for a, x in r if a == "R"}
-            wrt = {x for a, x in r if a == "W"}
-            spec_ok = rd <= wrt
+        spec_ok = i not in cspec
         ok = i not in cbad and spec_ok and not isinstance(r, str)
         ck.obligation(ok)
         ck.nontrivial(("c", repr(t)))
@@ -744,6 +752,8 @@ def source_grid(ck):
         for inner in ("if-body", "if-else", "match-first", "match-second", "match-default"):
             for use_at in ("inside", "mid", "after"):
                 n += 1
+                if ck.tier == "quick" and (n % 2) and not (inner == "match-first" and use_at != "inside"):
+                    continue          # quick tier: every second nested placement (all match-first ones are kept)
                 u = ["use", "x", n]
                 core = [["def", "x", n]] + ([u] if use_at == "inside" else [])
                 mid = [wrap_inner(inner, core)] + ([u] if use_at == "mid" else [])
@@ -936,7 +946,7 @@ def choice_str(c):
 
 def part_b(ck):
     quick = ck.tier == "quick"
-    progs = source_grid(ck) + random_progs(ck, 60 if quick else 600)
+    progs = source_grid(ck) + random_progs(ck, 30 if quick else 600)
     designs = []
     for p in progs:
         p.src = p.render()
@@ -1038,7 +1048,7 @@ def part_b(ck):
     # def_assign on every emitted process, inside Coq
     terms = [c[5] for c in da_cases]
     bad = set(common.coq_bad_indices(ck, "b_defassign", PRE_B, "list positive * stmt", terms,
-                                     "fun c => def_assign (fst c) (snd c)", shard=40)) if terms else set()
+                                     "fun c => def_assign (fst c) (snd c)", shard=120)) if terms else set()
     for i, (prog, name, label, tn, body, term, meta, vhdl) in enumerate(da_cases):
         ck.evaluations += 1
         ck.obligation(i not in bad)
@@ -1073,8 +1083,16 @@ def run(ck: common.Check, replay=None):
     ck.check_props("C08_Properties.v")
     if replay is not None:
         return run_replay(ck, replay)
-    part_a(ck)
-    part_b(ck)
+    import time
+    parts = os.environ.get("C08_PARTS", "ab")      # self-test convenience: run only one half
+    t0 = time.time()
+    if "a" in parts:
+        part_a(ck)
+    t1 = time.time()
+    if "b" in parts:
+        part_b(ck)
+    ck.cov["wall_part_a_s"] = round(t1 - t0, 1)
+    ck.cov["wall_part_b_s"] = round(time.time() - t1, 1)
     ck.cov["model"] = MODEL
     ck.cov["rule"] = ("a case is one IR tree (a), one list of states, one cleanup input or one source program / emitted process (b); "
                       "distinct by content; trivial = random IR trees rejected as 'read before written' at top level")
